@@ -499,6 +499,39 @@ def duplicate_profile(rng, rec):
         knobs["sched"] = {"policy": "uniform"}
 
 
+def linkentry_profile(rng, rec):
+    """A cache entry that is a symbolic link (the user pre-seeded it between two processes), then the situations
+    in which its recency, its removal and its eviction matter: other entries used before and after it is hit,
+    requests that force partial evictions, removal, purge."""
+    knobs = rec["knobs"]
+    K = len(knobs["keys"])
+    a = rng.randrange(min(K, 3))
+    others = [k for k in range(K) if k != a]
+    nid = max([o["id"] for o in rec["ops"] if isinstance(o["id"], int)] + [0]) + 1
+    seq = []
+    if rng.random() < 0.5 and others:
+        seq.append({"op": "GET", "keys": rng.sample(others, min(len(others), rng.randint(1, 2))), "dt": 10**9})
+    seq.append({"op": "FOREIGN", "name": "linkentry:@k%d" % a, "size": 0, "age": 0, "dt": 10**9})
+    seq.append({"op": "REOPEN", "size": None, "evict": False, "dt": 10**9})
+    for _ in range(rng.randint(1, 3)):
+        if others:
+            seq.append({"op": "GET", "keys": rng.sample(others, min(len(others), rng.randint(1, 2))), "dt": rng.choice([10**6, 10**9])})
+    seq.append({"op": "GET", "keys": [a], "dt": rng.choice([10**6, 10**9, 3600 * 10**9])})  # the hit on the link
+    for _ in range(rng.randint(1, 4)):
+        what = wchoice(rng, [(70, "get"), (10, "remove"), (10, "purge"), (10, "reopen")])
+        if what == "get" and others:
+            seq.append({"op": "GET", "keys": rng.sample(others, min(len(others), rng.randint(1, 3))), "dt": rng.choice([10**6, 10**9])})
+        elif what == "remove":
+            seq.append({"op": "REMOVE", "key": a, "dt": 1000})
+        elif what == "purge":
+            seq.append({"op": "PURGE", "dt": 1000})
+        else:
+            seq.append({"op": "REOPEN", "size": None, "evict": rng.random() < 0.5, "dt": 1000})
+    for j, o in enumerate(seq):
+        o["id"] = nid + j
+    rec["ops"] = seq + rec["ops"]
+
+
 def generate(prop, seed, profile=None):
     profile = profile or {}
     rng = random.Random(mix(seed, "gen", prop))
@@ -507,6 +540,8 @@ def generate(prop, seed, profile=None):
         profile = dict(profile, wide=True, big_requests=True, length=rng.randint(2, 5))
     if prop == "C18" and "duplicates" not in profile and rng.random() < 0.05:
         profile = dict(profile, duplicates=True, big_requests=True, parallel=True)
+    if "linkentry" not in profile and not profile.get("wide") and not profile.get("duplicates") and rng.random() < 0.04:
+        profile = dict(profile, linkentry=True)
     if prop == "C19" and "zombie" not in profile and not profile.get("fault_free") and rng.random() < 0.22:
         profile = dict(profile, zombie=True, big_requests=True, parallel=True)
     knobs = gen_knobs(rng, prop, profile)
@@ -523,6 +558,8 @@ def generate(prop, seed, profile=None):
             rec["clock_events"].append({"op": op["id"], "at": rng.randint(0, 30), "delta": delta})
     if prop == "C18" and profile.get("duplicates") and len(knobs["keys"]) >= 7:
         duplicate_profile(rng, rec)
+    if profile.get("linkentry"):
+        linkentry_profile(rng, rec)
     if prop == "C19" and not profile.get("fault_free"):
         rec["faults"] = gen_faults(rng, knobs, ops)
         if profile.get("zombie") and len(knobs["keys"]) >= 6:
